@@ -4,7 +4,7 @@ import itertools
 import enc
 from purecheck import PureCheck
 
-TEXTS = ["", "a", "ab", "a\nb\t", "Ｅ́x"]
+TEXTS = ["", "a", "ab", "a\nb\t", "Ｅ́x", "\u0301", "\u200d"]   # the last two: zero-width characters on their own
 
 
 def all_atts(style_vals=(0, 1, 2)):
@@ -17,8 +17,8 @@ def all_atts(style_vals=(0, 1, 2)):
 class C01(PureCheck):
     pid = "C01"
     rule = ("every attribute record (9 fg x 9 bg x {absent,False,True}^6; quick: all 5,184 records without "
-            "explicit False + sampled False variants) built through fmtstr(text, **kwargs) with 5 texts "
-            "(empty, ASCII, controls, wide+combining), plus multi-run values built with + (empty runs "
+            "explicit False + sampled False variants) built through fmtstr(text, **kwargs) with 7 texts "
+            "(empty, ASCII, controls, wide+combining, a combining mark / ZWJ alone in its run), plus multi-run values built with + (empty runs "
             "included); str(f) is lexed and the token list validated by TLC (Sgr.tla stream terminal). "
             "distinct_nontrivial = distinct (attribute records of all runs, text lengths) with at least one "
             "rendered attribute")
@@ -52,7 +52,7 @@ class C01(PureCheck):
             runs = []
             for _ in range(n):
                 a = [rng.choice([0, 0, 2, 5, 8]), rng.choice([0, 0, 1, 4])] + [rng.choice([0, 0, 0, 1, 2]) for _ in range(6)]
-                runs.append([enc.enc_text(rng.choice(["", "a", "b\n", "xy"])), a])
+                runs.append([enc.enc_text(rng.choice(["", "a", "b\n", "xy", "\u0301", "e", "Ｅ"])), a])
             yield {"runs": runs}
         # values derived by an operation from a value that was rendered (str() taken) before: the memoised
         # terminal string of the operand must not leak into what the result displays
